@@ -50,6 +50,10 @@ def run(ctx):
         stats_every_record(ctx, "C14.O")
         rule_spawn_count(ctx, "C14.T", fm, "vectorise_mmap")
     mmap_open_rule(ctx)
+    # the mapping is sized from the count of the SAME stream the rows are later read from (same opener: multi-member
+    # gzip, stdin): a sizing pass that sees fewer records puts the last rows at or past the end of the mapping
+    if fm is not None:
+        c05.stats_rule(dep(ctx, "C14", "C05"), fm)
     # row offsets are row_len * n: the reader numbers records 0, 1, 2 .. in both formats
     c05.ordinal_rule(dep(ctx, "C14", "C05"), "C05.N")
     # file size == header + records x row length needs the mapped file truncated and re-sized on every run
